@@ -166,7 +166,7 @@ theorem ctxAssign_mono (c : Ctx) (var : Bytes) (raw : Val) (kind : InsKind) : CM
 theorem ctxNode_mono (c : Ctx) (cs : CtxSpec) : CMono c (ctxNode c cs).1 := by
   unfold ctxNode
   split
-  · exact CMono.of_eq rfl rfl rfl
+  · split <;> exact CMono.of_eq rfl rfl rfl
   · split
     · exact CMono.refl c
     · simp only
